@@ -349,6 +349,15 @@ func portScenario(paths []string, behaviours []string, bound int) e1.Scenario {
 	return e1.Scenario{Name: fmt.Sprintf("fixed-port/%v/%v", paths, behaviours), Bound: bound, Body: body, Check: check}
 }
 
+// budget is the wall-clock allowance of one worker process: generous multiples of the measured
+// run time; running out of it yields exhaustive:false, never a violation.
+func budget(r *vk.Run) time.Duration {
+	if r.Thorough() {
+		return 25 * time.Minute
+	}
+	return 4 * time.Minute
+}
+
 func main() {
 	r := vk.Start("C09", "model_checking")
 	scenarios := []e1.Scenario{}
@@ -399,7 +408,10 @@ func main() {
 			scenarios = append(scenarios, portScenario(perm, b, bound))
 		}
 	}
-	e1.RunAll(r, scenarios, 0)
+	if r.Thorough() {
+		e1.PerScenario = 6 * time.Minute
+	}
+	e1.RunAll(r, scenarios, budget(r))
 	if r.Worker == "" && r.Replay == "" {
 		e1.Conformance(r)
 	}
